@@ -54,4 +54,14 @@ ToF64OK(x, bits) ==
              /\ IF DLe(F64MinPositive, ax)
                 THEN DLe(DMul(err, Two48), ax)                                  \* relative error 2^-48 in the normal range
                 ELSE DLe(err, F64Step)                                          \* one subnormal step (possibly zero) below it
+\* the same for a decimal whose scale may not fit a native integer (|scale| up to 2^63): beyond 10^9 in magnitude the
+\* value is astronomically outside the binary64 range - an infinity of the right sign when huge, zero or one subnormal
+\* step of the right sign when tiny
+WToF64OK(x, bits) ==
+  IF x.d = <<>> THEN bits = <<>>
+  ELSE IF ZSmall(x.z) THEN ToF64OK(Mk(x.s, x.d, ZToInt(x.z)), bits)
+  ELSE LET signOK == SignBit(bits, 64) = (IF x.s < 0 THEN 1 ELSE 0) IN
+       IF WAdj(x).s > 0 THEN IsInfF(bits, 64) /\ signOK
+       ELSE /\ IsFiniteF(bits, 64)
+            /\ LET F == FloatValue(bits, 64) IN F.d = <<>> \/ (signOK /\ DLe(DAbs(F), F64Step))
 =============================================================================
